@@ -739,14 +739,20 @@ impl Scenario for SyncAsync {
         "one artefact (archive image library-written or foreign, logical archive to write, header, directory, entry list) pushed through the sync face and the async face (async under the simulator's executor with Pending); readers compared value for value, writers byte for byte where no codec is involved and via the independent reader + both crate readers otherwise; distinct = distinct serialized cases; non-trivial = artefact non-empty".into()
     }
     fn generate(&self, rng: &mut Rng, tier: Tier, run: u64) -> Value {
-        if run < 2 {
-            // once per batch and direction: metadata of tens of MiB (a few KiB once compressed),
-            // moved in large pieces so the case stays cheap
-            let ic = *rng.pick(&[2u8, 2, 4, 1]);
+        if run < 4 {
+            // once per batch, direction and codec family: metadata of several to tens of MiB
+            // (repetitive text: a few KiB once compressed, i.e. compression ratios far above
+            // 1000:1), moved in large pieces so the case stays cheap
+            let (write, ic, mib) = match run {
+                0 => (true, 2u8, 17 + rng.below(20) as u32),
+                1 => (false, 4, 17 + rng.below(20) as u32),
+                2 => (false, 3, 2 + rng.below(3) as u32),
+                _ => (true, *rng.pick(&[4u8, 1]), 17 + rng.below(20) as u32),
+            };
             let mut a = draw_archive(rng, SizeClass::Tens, ic);
-            a.meta = crate::case::Meta { kind: 6, seed: rng.next_u64(), n: 17 + rng.below(20) as u32 };
+            a.meta = crate::case::Meta { kind: 6, seed: rng.next_u64(), n: mib };
             let pol = Policy { rd: Xfer::Random(200_000), wr: Xfer::Random(200_000), pend: crate::disk::Pend { rate: 20, burst: 2, inline: 50, ctl: true }, seed: rng.next_u64() };
-            let call = if run == 0 { Call::Write { a, scramble: 1 } } else { Call::Open { src: ImageSrc::Written { a, face: Face::Sync, w: Policy::plain(), scramble: 1 }, range: RangeSpec::ALL } };
+            let call = if write { Call::Write { a, scramble: 1 } } else { Call::Open { src: ImageSrc::Written { a, face: Face::Sync, w: Policy::plain(), scramble: 1 }, range: RangeSpec::ALL } };
             return to_value(&SaCase { call, pol });
         }
         let call = draw_call(rng, tier);
